@@ -272,7 +272,7 @@ theorem C01_spec (q : Request) (sh chip : Regs) (hco : Coherent sh chip)
   have hagree : ∀ x ∈ DS.cfgAddrs, sh x = chip x := hco
   have ht := C02_target q sh chip hagree hdef
   have he := C01_effect q sh chip hco ws h
-  refine ⟨?_, ?_, ?_⟩
+  refine ⟨?_, ?_, ?_, ?_⟩
   · intro a _
     rw [he a]
     unfold ideal
@@ -283,6 +283,8 @@ theorem C01_spec (q : Request) (sh chip : Regs) (hco : Coherent sh chip)
     rw [he a]; simp only [hb, if_true]; exact (ht a (block_sub_cfg q a hb)).1
   · intro a hb
     rw [he a]; simp only [hb, if_true]; exact (ht a (block_sub_cfg q a hb)).2
+  · intro a _ hb
+    rw [he a]; simp only [hb, if_false]
 
 /-- after the call the recorded configuration is again coherent and free of reserved bits -/
 theorem C01_shadow (q : Request) (sh chip : Regs) (hco : Coherent sh chip)
